@@ -76,6 +76,11 @@ func NewProxy() *Proxy {
 			Proxy:                 http.ProxyFromEnvironment,
 			TLSHandshakeTimeout:   10 * time.Second,
 			ExpectContinueTimeout: time.Second,
+			// A proxy relays the origin's representation as it is. Left enabled,
+			// the transport asks for gzip on behalf of clients that did not, and
+			// decodes the answer into a response of unknown length that is then
+			// written to a kept-alive client connection without any framing.
+			DisableCompression: true,
 		},
 		timeout: 5 * time.Minute,
 		closing: make(chan bool),
